@@ -17,7 +17,7 @@ outdir = os.environ.get("PIKEVC_OUT", os.path.join(verif, "out"))
 BOUNDED = {
     "C01": "TestBoundedLRU", "C06": "TestBoundedLRU", "C18": "TestBoundedLRU",
     "C11": "TestBoundedLRU|TestBoundedNewDispatcher",
-    "C07": "TestBoundedHitForPassTTL",
+    "C07": "TestBoundedHitForPassTTL|TestBoundedConfiguredPeriod",
     "C05": "TestBoundedCodecs|TestBoundedHeaderModel|TestBoundedDecisionTable", "C12": "TestBoundedCodecs",
     "C13": "TestBoundedCodecs|TestBoundedDecisionTable",
     "C15": "TestBoundedAddQuery|TestBoundedMergeHeader|TestBoundedRewriter|TestBoundedHeaderModel",
